@@ -12,7 +12,7 @@ import (
 var (
 	VerifDir   = envOr("VERIF_DIR", "/verif")
 	RepoDir    = envOr("REPO_DIR", "/repo")
-	HarnessDir = filepath.Join(VerifDir, "harness")
+	HarnessDir = envOr("HARNESS_DIR", filepath.Join(VerifDir, "harness"))
 )
 
 func envOr(k, d string) string {
